@@ -1,5 +1,6 @@
 #!/usr/bin/env python3
-"""Regression run of every kept seed against the current checks: applies seeded/<name>/patch.diff to /repo,
+"""Regression run of every kept seed (or, with a regular expression as argument, of the matching ones: their
+rows replace the old ones in RESULTS.md) against the current checks: applies seeded/<name>/patch.diff to /repo,
 runs the property's own quick check (and, if that does not fire, the checks its meta.json names), reverts.
 Writes seeded/RESULTS.md. /repo must be clean. Evidence files are overwritten by mutated runs: re-run the
 quick checks on the clean tree afterwards."""
@@ -7,10 +8,12 @@ import json, os, re, subprocess, sys, time
 V="/verif"; R="/repo"
 def sh(c, cwd=None): return subprocess.run(c, shell=True, cwd=cwd, capture_output=True, text=True)
 if sh("git status --short", R).stdout.strip(): print("/repo not clean"); sys.exit(2)
+flt=re.compile(sys.argv[1]) if len(sys.argv)>1 else None
 rows=[]
 for name in sorted(os.listdir(f"{V}/seeded")):
     d=f"{V}/seeded/{name}"
     if not os.path.exists(f"{d}/patch.diff"): continue
+    if flt and not flt.search(name): continue
     meta=json.load(open(f"{d}/meta.json"))
     own=name[:3]
     others=[c for c in re.findall(r"C\d\d", meta.get("checks_run_against_it","")) if c!=own]
@@ -31,6 +34,13 @@ for name in sorted(os.listdir(f"{V}/seeded")):
         print(f"{name:8s} {status:24s} ({time.time()-t0:.0f}s)", flush=True)
     finally:
         sh("git checkout -- .", R)
+if flt and os.path.exists(f"{V}/seeded/RESULTS.md"):
+    old={}
+    for l in open(f"{V}/seeded/RESULTS.md"):
+        c=[x.strip() for x in l.strip().strip("|").split("|")]
+        if len(c)==4 and c[0] not in ("seed","---"): old[c[0]]=tuple(c)
+    for r in rows: old[r[0]]=r
+    rows=[old[k] for k in sorted(old)]
 with open(f"{V}/seeded/RESULTS.md","w") as f:
     f.write("# Seeded changes vs. the current checks (tools/all_seeds.py)\n\n| seed | property | result | signatures |\n|---|---|---|---|\n")
     for r in rows: f.write(f"| {r[0]} | {r[1]} | {r[2]} | {r[3]} |\n")
